@@ -14,7 +14,7 @@ Fixpoint rx_of (o : oracle) (p s : str) : bool :=
   | (p', s', r) :: t => if (str_eqb p p' && str_eqb s s')%bool then r else rx_of t p s
   end.
 
-(* TupleType.Equals at typemismatchdescriber.go:787 is consulted only after internalDescribe has found
+(* TupleType.Equals at typemismatchdescriber.go:771 is consulted only after internalDescribe has found
    the pair not assignable; equal types are assignable (reflexivity, C03), so the verdict there is `false`.
    The harness counts tuple pairs that are Equal but not assignable (none) and any such pair would show
    up as a mismatch of this correspondence. *)
